@@ -111,7 +111,29 @@ def gen_cases(ctx):
             cls = rng.choice(["MolGraph", "StereoMolGraph"])
             a = gen.random_pg(rng, cls, n_range=(2, 10), alphabet=rng.choice([gen.TINY, gen.SMALL, gen.WIDE]), p_stereo=0.4)
             how = rng.random()
-            if (i // 3) % 10 == 7:  # ligand exchange between two centres of one element (coordination numbers 2..8, rarely 9)
+            if (i // 3) % 10 == 2:
+                # bare rings (4-8 atoms, two or three elements) in two cyclic arrangements of the same element multiset,
+                # e.g. the alternating S-N-S-N square and the S-S-N-N square: every atom has the same degree and, in
+                # closed-neighbourhood terms, often the same surroundings
+                r_ = rng.randint(4, 8)
+                pool = rng.sample([6, 7, 8, 16, 15, 5, 14], rng.randint(2, 3))
+                els_ = [pool[k % len(pool)] for k in range(r_)]
+                ids_ = gen.make_ids(rng, r_)
+
+                def ring(arr):
+                    g_ = sem.pg_empty(cls)
+                    for a_, z_ in zip(ids_, arr):
+                        g_["atoms"][a_] = {"atom_type": z_}
+                    for k in range(r_):
+                        g_["bonds"][frozenset((ids_[k], ids_[(k + 1) % r_]))] = {}
+                    return g_
+
+                a1, a2 = els_[:], els_[:]
+                rng.shuffle(a1)
+                rng.shuffle(a2)
+                a, b = ring(a1), ring(a2)
+                b = sem.pg_relabel(b, gen.random_bijection(rng, b))
+            elif (i // 3) % 10 == 7:  # ligand exchange between two centres of one element (coordination numbers 2..8, rarely 9)
                 r = gen.ligand_exchange_pair(rng, cls, kmax=9 if (i // 30) % 8 == 0 else 8)
                 if not r:
                     continue
